@@ -14,7 +14,7 @@ Metas == {"empty", "disjoint", "colliding", "reserved"}
 Calls == [ref : Refs, meta : Metas, opt : {"ok"}] \cup [ref : {"tag"}, meta : {"empty"}, opt : BadOpts]
 
 Idle(a, r) == [art |-> a, refs |-> r, pc |-> "idle"]
-Init == \E a \in [annotated : BOOLEAN, store : {"mem", "oci", "ociReopen", "ociExternal"}, signerAnn : {"none", "unrelated", "clashing"}] : s = Idle(a, 0) /\ hist = <<>> /\ art0 = a
+Init == \E a \in [annotated : BOOLEAN, store : {"mem", "oci", "ociReopen", "ociExternal"}, signerAnn : {"none", "unrelated", "clashing", "noTime"}] : s = Idle(a, 0) /\ hist = <<>> /\ art0 = a
 Begin == s.pc \in {"idle", "done"} /\ Len(hist) < MaxCalls /\ \E c \in Calls : s' = SStart(s.art, s.refs, c) /\ hist' = Append(hist, c) /\ UNCHANGED art0
 Step  == s.pc \notin {"idle", "done"} /\ s' = SStep(s) /\ UNCHANGED <<hist, art0>>
 Next == Begin \/ Step
